@@ -324,6 +324,7 @@ func (c13) Run(x *Exec, scn any) {
 	boundaries := 0
 	clockEnv(x, s, &boundaries)
 	var writes []*rollWrite
+	movedAt := -1 // index of the first write issued after the appender was pointed at another directory
 	restartsDone := 0
 	// stop/start cycles happen only while no write is in progress (the property's premise):
 	// the writers' lists are cut into Restarts+1 phases with a stop/start between them,
@@ -337,6 +338,13 @@ func (c13) Run(x *Exec, scn any) {
 	for r := 0; r < s.Restarts; r++ {
 		x.Sim.Spawn("restart", func() {
 			a.Stop()
+			if s.Knobs.MapSeed%3 == 2 && r == s.Restarts-1 && !s.Twin {
+				// the exported configuration of a stopped appender may be changed before it is started
+				// again: from now on its files belong in the other directory
+				x.FS.MkdirAll(rollDir + "2")
+				a.FileDir = rollDir + "2"
+				movedAt = len(writes)
+			}
 			if err := a.Start(); err != nil {
 				panic("harness: rolling re-Start failed: " + err.Error())
 			}
@@ -378,6 +386,15 @@ func (c13) Run(x *Exec, scn any) {
 	x.Sim.Close()
 	o.Reached = boundaries >= 1 && (x.Sim.Preemptions() > 0 || (len(s.Writers) == 1 && boundaries >= 2))
 	judgeRolling(x, s, "C13", writes, iv, true)
+	if movedAt >= 0 {
+		all := x.FS.AllFiles()
+		for _, w := range writes[movedAt:] {
+			if where, n := locate(all, w.Payload); w.Returned && n == 1 && !strings.HasPrefix(where[0], rollDir+"2/") {
+				o.violate("wrong-directory", "C13/write-not-in-the-configured-directory", "write %s was issued after the stopped appender was pointed at %s2 and started again, but sits in %s", w.ID, rollDir, where[0])
+				break
+			}
+		}
+	}
 	if s.Pre {
 		data, _ := x.FS.ReadFile(preName)
 		if !strings.HasPrefix(string(data), preContent) {
